@@ -456,6 +456,22 @@ type SibCase struct {
 }
 
 func checkSiblings(c SibCase, o *stats.Obs) error {
+	// First the bare history: the frames decoded back to back with nothing else in between.
+	for i, cs := range c.Cases {
+		m := cs.Msg
+		lv := slog.LevelInfo
+		if cs.Debug {
+			lv = slog.LevelDebug
+		}
+		got, err := decodeDirect(m.Frame(), m.IsMSM7(), lv)
+		if err != nil {
+			continue // the full check below says why, if it should have been accepted
+		}
+		if d := diff(got, want(&m)); d != "" {
+			o.Key = "history/decode-mismatch"
+			return fmt.Errorf("message %d of a history of %d back-to-back decodes (each differs from the one before in one field): %s\nframe %x", i, len(c.Cases), d, m.Frame())
+		}
+	}
 	for i, cs := range c.Cases {
 		oo := &stats.Obs{}
 		if err := check(cs, oo); err != nil {
